@@ -36,7 +36,7 @@ PROPERTY_RULES: Dict[str, List[str]] = {
             "R19/anc-closure"],
     "C03": ["R21", "R8/lift", "R17", "R5/store", "R5/update_min", "R20/delay", "R20/table", "R11/out", "R4/outtime", "R1/O1"],
     "C04": ["R18", "R21", "R8", "R5", "R6", "R17", "R10/R18", "R1/O3", "R20/table", "R20/delay"],
-    "C05": ["R8", "R1/O4", "R1/O5", "R2", "R4/wake", "R4/settle", "R4/wait", "R5", "R6", "R7/site", "R19/anc-closure"],
+    "C05": ["R3/INIT", "R8", "R1/O4", "R1/O5", "R2", "R4/wake", "R4/settle", "R4/wait", "R5", "R6", "R7/site", "R19/anc-closure"],
     "C06": ["R5", "R6", "R7/site", "R19"],
     "C07": ["R2/INFLIGHT", "R2/sink", "R2/anc", "R2/own", "R2/until", "R2/extra", "R3/P3", "R5/store", "R5/update_min", "R19/anc-closure"],
     "C08": ["R6"],
@@ -48,7 +48,7 @@ PROPERTY_RULES: Dict[str, List[str]] = {
     "C14": ["R14", "R11/conn"],
     "C15": ["R23", "R3/P3b"],
     "C16": ["R1/O2", "R1/O4", "R20/async", "R20/connect", "R10/gate", "R10/set_data", "R10/get_data", "R17/take", "R17/memory", "R17/writeback"],
-    "C17": ["R8", "R2/rt", "R4/wait", "R10/set_event", "R10/run", "R10/rt_check", "R10/R18"],
+    "C17": ["R3/INIT", "R8", "R2/rt", "R4/wait", "R10/set_event", "R10/run", "R10/rt_check", "R10/R18"],
     "C18": ["R24"],
 }
 
